@@ -31,20 +31,33 @@ Proof.
   congruence.
 Qed.
 
-Definition gc_satisfied (g : gcon) (s : gst) : Prop :=
+Definition gc_satisfied (as_ : list art) (g : gcon) (s : gst) : Prop :=
   match g, s with
   | GCAll _, GSAll rem => rem = []
   | GCOne _, GSUsed u => u = true
+  | GCDiffer ixs, _ => differ_clash as_ ixs = false
+  | GCDisjoint i j, _ =>
+      hasval (nth i as_ dummy_art) && hasval (nth j as_ dummy_art)
+      && val_intersect (val (nth i as_ dummy_art)) (val (nth j as_ dummy_art)) = false
   | _, _ => True
   end.
 
-Lemma gcs_end_ok gs : forall ss, gcs_end gs ss = Ok tt ->
-  Forall2 gc_satisfied (firstn (length ss) gs) (firstn (length gs) ss).
+Lemma gc_end_ok as_ g s : gc_end as_ g s = Ok tt -> gc_satisfied as_ g s.
+Proof.
+  unfold gc_end, gc_satisfied. destruct g as [ks|ks|ks|ixs|i j]; intros H.
+  - destruct s as [rem|u]; auto. destruct rem; [reflexivity|discriminate].
+  - destruct s; auto.
+  - destruct s as [rem|u]; auto. destruct u; [reflexivity|discriminate].
+  - destruct (differ_clash as_ ixs); [destruct s; discriminate|reflexivity].
+  - unfold dummy_art. match goal with |- ?b = false => destruct b; [destruct s; discriminate|reflexivity] end.
+Qed.
+
+Lemma gcs_end_ok as_ gs : forall ss, gcs_end as_ gs ss = Ok tt ->
+  Forall2 (gc_satisfied as_) (firstn (length ss) gs) (firstn (length gs) ss).
 Proof.
   induction gs as [|g gr IH]; intros [|s sr] H; cbn in *; try constructor.
-  - destruct g, s; cbn in *; auto; try (destruct remaining; [reflexivity|discriminate]).
-    destruct used; [reflexivity|discriminate].
-  - destruct (gc_end g s) as [[]|e|f]; cbn in H; try discriminate. apply IH. exact H.
+  - apply gc_end_ok. destruct (gc_end as_ g s) as [[]|e|f]; [reflexivity|discriminate|discriminate].
+  - destruct (gc_end as_ g s) as [[]|e|f]; cbn in H; try discriminate. apply IH. exact H.
 Qed.
 
 (** An accepted command line has passed every end-of-line rule: each mandatory
@@ -56,7 +69,7 @@ Lemma final_checks_ok c s :
   Forall2 (fun d a => (a_mand d = true -> hasval a = true) /\ card_end (a_card d) (cnt a) = Ok tt)
           (firstn (length (arts s)) (args c)) (firstn (length (args c)) (arts s)) /\
   Forall (fun e => fst e <> KRequired) (pend s) /\
-  Forall2 gc_satisfied (firstn (length (gsts s)) (gcons c)) (firstn (length (gcons c)) (gsts s)).
+  Forall2 (gc_satisfied (arts s)) (firstn (length (gsts s)) (gcons c)) (firstn (length (gcons c)) (gsts s)).
 Proof.
   unfold final_checks. intros H.
   destruct (check_mandatory_card (args c) (arts s)) as [[]|e|f] eqn:E1; cbn in H; try discriminate.
